@@ -1,5 +1,6 @@
 import CpModel.Proto
 import CpModel.Reader
+import CpModel.ReaderSink
 /-!
   Driver for C05 (SizedReader).  One case per line, seven space-separated fields:
 
@@ -7,10 +8,14 @@ import CpModel.Reader
 
   LENGTH, MAXBYTES, FAILAT = `N` (None) or a decimal; BODYHEX = hex (`-` empty);
   FRAG = `-` or comma-separated decimals (the i-th fp.read returns at most FRAG[i]+1 bytes);
-  OPS = `-` or comma-separated `read | read:N | readline | readline:N | readlines | readlines:N | next`.
+  OPS = `-` or comma-separated `read | read:N | readline | readline:N | readlines | readlines:N | next`
+  and the sink / iteration operations of `CpModel.ReaderSink`: `readfp | readfp:N` (`read(N, fp_out)`),
+  `rif` (`read_into_file`), `iter` (`for line in body`).
 
   Output: `<out>,<out>,… off=<n> br=<n> done=<0|1> buf=<n>` with
-  out = `b:<hex>` | `l:<hex>/<hex>/…` | `stop` | `e413` | `fuel`.
+  out = `b:<hex>` | `l:<hex>/<hex>/…` | `stop` | `e413` | `fuel` | `w:<hex>` (sink content after a
+  successful sink operation) | `y:<hex>/<hex>/…` (lines yielded) | `e413+<hex>` (413, and what the
+  sink received / the iterator yielded before it).
 -/
 open CpModel CpModel.Reader
 
@@ -19,18 +24,22 @@ namespace Drv.C05
 def parseNats (s : String) : Option (List Nat) :=
   if s == "-" then some [] else (s.splitOn ",").mapM (·.toNat?)
 
-def parseOp (s : String) : Option Op :=
+def parseOp (s : String) : Option OpX :=
   match s.splitOn ":" with
-  | ["read"] => some (.read none)
-  | ["read", n] => n.toNat?.map fun k => .read (some k)
-  | ["readline"] => some (.readline none)
-  | ["readline", n] => n.toNat?.map fun k => .readline (some k)
-  | ["readlines"] => some (.readlines none)
-  | ["readlines", n] => n.toNat?.map fun k => .readlines (some k)
-  | ["next"] => some .next
+  | ["read"] => some (.base (.read none))
+  | ["read", n] => n.toNat?.map fun k => .base (.read (some k))
+  | ["readline"] => some (.base (.readline none))
+  | ["readline", n] => n.toNat?.map fun k => .base (.readline (some k))
+  | ["readlines"] => some (.base (.readlines none))
+  | ["readlines", n] => n.toNat?.map fun k => .base (.readlines (some k))
+  | ["next"] => some (.base .next)
+  | ["readfp"] => some (.readInto none)
+  | ["readfp", n] => n.toNat?.map fun k => .readInto (some k)
+  | ["rif"] => some .intoFile
+  | ["iter"] => some .iter
   | _ => none
 
-def parseOps (s : String) : Option (List Op) :=
+def parseOps (s : String) : Option (List OpX) :=
   if s == "-" then some [] else (s.splitOn ",").mapM parseOp
 
 def showOut : Out → String
@@ -40,6 +49,15 @@ def showOut : Out → String
   | .err413 => "e413"
   | .fuel => "fuel"
 
+def showOutX : OutX → String
+  | .base o => showOut o
+  | .wrote (.ok _) w => "w:" ++ Proto.hex w
+  | .wrote .err413 w => "e413+" ++ Proto.hex w
+  | .wrote .fuel _ => "fuel"
+  | .yielded (.ok _) ls => "y:" ++ "/".intercalate (ls.map Proto.hex)
+  | .yielded .err413 ls => "e413+" ++ Proto.hex ls.flatten
+  | .yielded .fuel _ => "fuel"
+
 def step (line : String) : String :=
   match Proto.fields line with
   | [l, m, b, fa, body, frag, ops] =>
@@ -47,8 +65,8 @@ def step (line : String) : String :=
           parseNats frag, parseOps ops with
     | some l, some m, some b, some fa, some body, some frag, some ops =>
       let cfg : Cfg := { length := l, maxbytes := m, bufsize := b }
-      let (outs, s) := run cfg (init body frag fa) ops
-      let o := if outs.isEmpty then "-" else ",".intercalate (outs.map showOut)
+      let (outs, s) := runX cfg (init body frag fa) ops
+      let o := if outs.isEmpty then "-" else ",".intercalate (outs.map showOutX)
       s!"{o} off={s.off} br={s.bytesRead} done={if s.done then 1 else 0} buf={s.buffer.length}"
     | _, _, _, _, _, _, _ => "bad-op"
   | _ => "bad-op"
